@@ -20,13 +20,13 @@ class C03(Prop):
     model_targets = ["theories/Agent/RespPathCheck.vo"]
     technique = "Coq proofs over all backend responses for status / interim 1xx / header forwarding through the modelled response writer and proxy relay (tables regenerated from the source) and for the trailer announcement round trip; end-to-end differential run with a scripted raw HTTP/1.1 backend and an h2c backend, under the race detector"
     level_text = ("C03_status_and_headers proves for every backend response (any final status outside 1xx, any fields incl. repeated ones, any number of interim 1xx responses, any trailers) that the client gets the final status and exactly the backend's "
-                  "values for every end-to-end field and never a hop-by-hop field; C03_trailer_announcement proves that the response writer pre-declares exactly the announced trailer names for any number of names. Trailer delivery as a whole "
-                  "(C03_trailers_statement) is stated, evaluated on every generated response by the executable model and compared with the implementation, but not proved: PARTIAL. The run covers status x method x header sets x body sizes/chunkings "
+                  "values for every end-to-end field and never a hop-by-hop field; C03_trailer_announcement proves that the response writer pre-declares exactly the announced trailer names for any number of names. C03_trailers proves trailer delivery as a whole: "
+                  "every trailer field, announced or not, any number of names and values, in both forms ReverseProxy hands them over (plain / Trailer:-prefixed), reaches the client as a trailer with exactly its values in order and nothing else does. The run covers status x method x header sets x body sizes/chunkings "
                   "(1-byte first writes) x framing x 0..6 declared / 0..5 undeclared trailers x interim 100/102/103 x HTTP/1.1 and h2c.")
     level_note = ("Trusted: Coq kernel, srcfacts (hopHeaders, isHopByHopHeader), harness, race detector. Modelled, not verified: httputil.ReverseProxy's call sequence (revproxy_calls), net/http response serialisation and parsing, chunked coding. "
                   "The interleaving of handler and serialiser goroutines is outside the model: the unsynchronised trailer map is exhibited by the race detector (known finding). Fields added on the path (Date, sniffed Content-Type) are allowed; "
                   "entity headers of HEAD/204/304 responses may be omitted; Proxy-Connection is a declared don't-care.")
-    partial_note = "trailer delivery is compared on every run but proved only for the announcement step; goroutine interleavings of the response writer are decided by the race detector"
+    partial_note = "goroutine interleavings of the response writer (handler vs. serialiser) are outside the model and are decided by the race detector; the body is an opaque token in the model"
     assumptions = [
         "ReverseProxy calls the ResponseWriter as specified by revproxy_calls (1xx via WriteHeader, one joined Trailer value, trailers unprefixed iff all were announced)",
         "trailer field names do not collide with header field names of the same response and are plain tokens",
